@@ -171,6 +171,14 @@ def check (prop : String) (inp out : List String) : Verdict :=
         specFail := failing [("client_decodes_daemon_identity", impl == some inst)] }
     | _, _ => .bad "id tokens"
   | "sess" :: instTok :: evToks =>
+    if out == ["HANG"] then
+      -- the session task never gave control back: whatever the bytes, a session must keep serving and must end
+      -- when its client is gone
+      (match parsePacket? .inst instTok, evToks.mapM parseEv? with
+       | some (.inst inst), some es =>
+         { agree := false, model := joinSp ((modelRun inst {} es).map showEvOut), specFail := ["session_never_hangs"] }
+       | _, _ => .bad "sess tokens")
+    else
     match parsePacket? .inst instTok, evToks.mapM parseEv?, out.mapM parseEvOut? with
     | some (.inst inst), some es, some outs =>
       if es.length != outs.length then .bad "one output per event" else
